@@ -6,6 +6,14 @@ black box   every hypergraph yielded by HyMMSBMSampler.sample(...) is judged by 
 white box   with the hooks of .work/proposed/hooks_c16.diff (HGX_VERIF=1) every _extract_hye,
             _mcmc_step and yield is validated as a step of Sampler.tla: MODEL clauses (m_*),
             reported as MODEL-DRIFT, never as a violation.  Without hooks the check still works.
+            The hooks also make the list of sampled hyperedges visible: the statement's "whenever no two
+            sampled hyperedges coincided ... exactly" is then judged (PROPERTY clause
+            exact_when_no_coincidence_at_yield) on every sample whose logged list and tracked chain hold no
+            two equal hyperedges, however many hyperedges came out and whatever earlier samples looked like.
+inputs      dense random u, w next to hard (0/1) memberships with a diagonal w, where hyperedges across
+            communities have Poisson rate exactly 0; single calls next to histories of several sample()
+            calls on ONE sampler object (matching_sequences is never reset): every yielded hypergraph is
+            judged against the conditioning of its own call and the flag reported at that moment.
 """
 import concurrent.futures as cf
 import json
@@ -23,14 +31,16 @@ from harness.binding import LABEL_FAMILIES, quiet
 from harness.verdict import Result
 
 INVARIANTS = ["TypeOK", "NeverSingleton", "DegNeverExceeds", "SizeCountNeverExceeds", "ExactWhenNoCoincidence",
-              "MatchingMeansExhausted", "OutputWellFormed", "PostHolds"]
+              "MatchingMeansExhausted", "ChainComplete", "OutputWellFormed", "PostHolds"]
 ALL_MODES = {"init", "seqs", "partial", "model"}
+FRESH, ANY_FLAG = {"none"}, {"none", "yes", "no"}     # Flags0: the flag an earlier call on the same object may have left
 EXPLORE = {
-    "quick": [dict(N=4, NEdges=3, MaxDeg=2, MaxW=1, Modes=ALL_MODES)],                       # 165 k states, 30 s
-    "thorough": [dict(N=4, NEdges=3, MaxDeg=3, MaxW=2, Modes=ALL_MODES),                  # 635 k states, 90 s
-                 dict(N=5, NEdges=3, MaxDeg=2, MaxW=1, Modes={"init"}),                   # 147 k states, 40 s
-                 dict(N=4, NEdges=4, MaxDeg=2, MaxW=1, Modes={"init"}),                   # 173 k states, 45 s
-                 dict(N=5, NEdges=3, MaxDeg=2, MaxW=1, Modes={"seqs"})],                  # 1.48 M states, 4-5 min
+    "quick": [dict(N=4, NEdges=3, MaxDeg=2, MinW=0, MaxW=1, Flags0=ANY_FLAG, Modes=ALL_MODES)],            # 222 k states, 20 s
+    "thorough": [dict(N=4, NEdges=3, MaxDeg=3, MinW=0, MaxW=2, Flags0=ANY_FLAG, Modes=ALL_MODES),
+                 dict(N=4, NEdges=3, MaxDeg=2, MinW=1, MaxW=2, Flags0=ANY_FLAG, Modes={"init", "seqs"}),   # literal exactness
+                 dict(N=5, NEdges=3, MaxDeg=2, MinW=0, MaxW=1, Flags0=FRESH, Modes={"init"}),              # 147 k states, 40 s
+                 dict(N=4, NEdges=4, MaxDeg=2, MinW=0, MaxW=1, Flags0=FRESH, Modes={"init"}),              # 173 k states, 45 s
+                 dict(N=5, NEdges=3, MaxDeg=2, MinW=0, MaxW=1, Flags0={"none", "yes"}, Modes={"seqs"})],
 }
 BIG = 1 << 28        # TLC integers are 32-bit: larger weights are not sent
 
@@ -54,6 +64,7 @@ def explore(tier):
 # inputs (abstract: spec node ids 1..n, hyperedges = sorted tuples of ids)
 U_VALUES = [0.0, 0.0, 0.3, 0.5, 1.0, 1.0, 1.5]
 W_VALUES = [0.0, 0.2, 0.5, 1.0]
+HARD_SHARE = 0.35     # share of the inputs with hard memberships and a diagonal w
 
 
 def gen_uw(rng, n, scale=1.0):
@@ -68,12 +79,34 @@ def gen_uw(rng, n, scale=1.0):
     return u, w
 
 
-def gen_edges(rng, n, m, distinct=True, minsize=2):
+def gen_uw_hard(rng, n):
+    """hard memberships (every node in exactly one community, u in {0, 1}) and a diagonal w: the Poisson rate of a
+    hyperedge is sum_k w_kk * C(#its nodes in community k, 2) - exactly 0 when its nodes sit in different communities"""
+    k = rng.choice([2, 3, 3, 4])
+    comm = [i % k for i in range(n)]
+    rng.shuffle(comm)
+    u = [[1.0 if comm[i] == a else 0.0 for a in range(k)] for i in range(n)]
+    w = [[rng.choice([0.2, 0.5, 1.0, 2.0]) if a == b else 0.0 for b in range(k)] for a in range(k)]
+    return u, w
+
+
+def zero_rate(u, w, e):
+    """e: code indices (rows of u).  u, w >= 0: the rate sum_{i<j} u_i^T w u_j is 0 iff every term is"""
+    k = len(w)
+    for x in range(len(e)):
+        for y in range(x + 1, len(e)):
+            ui, uj = u[e[x]], u[e[y]]
+            if any(ui[a] and uj[b] and w[a][b] for a in range(k) for b in range(k)):
+                return False
+    return True
+
+
+def gen_edges(rng, n, m, distinct=True, minsize=2, maxsize=6):
     out = []
     guard = 0
     while len(out) < m and guard < 200:
         guard += 1
-        z = min(n, rng.choice([2, 2, 3, 3, 4, 5, 6]))
+        z = min(n, maxsize, rng.choice([2, 2, 3, 3, 4, 5, 6]))
         z = max(z, minsize)
         e = tuple(sorted(rng.sample(range(1, n + 1), z)))
         if distinct and e in out:
@@ -83,33 +116,28 @@ def gen_edges(rng, n, m, distinct=True, minsize=2):
 
 
 def common(rng, n, tier):
-    u, w = gen_uw(rng, n)
-    return {"u": u, "w": w, "burn": rng.choice([0, 0, 1, 3, 8, 15]), "thin": rng.choice([0, 1, 1, 2, 5]),
+    hard = rng.random() < HARD_SHARE
+    u, w = gen_uw_hard(rng, n) if hard else gen_uw(rng, n)
+    return {"u": u, "w": w, "hard": hard, "burn": rng.choice([0, 0, 1, 3, 8, 15]), "thin": rng.choice([0, 1, 1, 2, 5]),
             "seed": rng.choice([0, 1, 7, 42, 12345, rng.randrange(10 ** 6)]), "samples": 3 if tier == "quick" else 4,
             "maxsize": None, "dyadic": True, "rescale": False}
 
 
-def spec_init(rng, tier):
-    n = rng.choice([3, 4, 4, 5, 5, 6])
-    fam = rng.choice(["str", "sparse", "str", "sparse", "ident", "zero"])
+def call_init(rng, n, maxsize=6):
     m = rng.randint(2, 6 if n > 3 else 4)
-    edges = gen_edges(rng, n, m)
-    s = common(rng, n, tier)
-    s.update(mode="init", n=n, family=fam, labels=LABEL_FAMILIES[fam](n), edges=[list(e) for e in edges],
-             listing=[rng.sample(list(e), len(e)) for e in edges])
-    return s
+    edges = gen_edges(rng, n, m, maxsize=maxsize)
+    return {"mode": "init", "edges": [list(e) for e in edges], "listing": [rng.sample(list(e), len(e)) for e in edges]}
 
 
-def spec_seqs(rng, tier):
-    n = rng.choice([3, 4, 4, 5, 5, 6])
+def call_seqs(rng, n, kind=None, maxsize=6):
     m = rng.randint(1, 6)
-    base = gen_edges(rng, n, m, distinct=rng.random() < 0.7)
+    kind = kind or rng.choice(["from_hypergraph", "from_hypergraph", "spread", "concentrated"])
+    base = gen_edges(rng, n, m, distinct=(kind == "greedy") or rng.random() < 0.7, maxsize=maxsize)
     sizes = {}
     for e in base:
         sizes[len(e)] = sizes.get(len(e), 0) + 1
     total = sum(len(e) for e in base)
-    kind = rng.choice(["from_hypergraph", "from_hypergraph", "spread", "concentrated"])
-    if kind == "from_hypergraph":       # the sequences of an actual list of hyperedges (realisable, perhaps not greedily)
+    if kind in ("from_hypergraph", "greedy"):   # the sequences of an actual list of hyperedges (realisable, perhaps not greedily)
         deg = [sum(1 for e in base if i in e) for i in range(1, n + 1)]
     elif kind == "spread":              # equal total, dealt out at random
         deg = [0] * n
@@ -122,16 +150,35 @@ def spec_seqs(rng, tier):
             deg[rng.choice(few)] += 1
     keys = list(sizes)
     rng.shuffle(keys)
+    return {"mode": "seqs", "deg": deg, "dim": [[z, sizes[z]] for z in keys], "kind": kind, "rescale": rng.random() < 0.15}
+
+
+def spec_init(rng, tier):
+    n = rng.choice([3, 4, 4, 5, 5, 6])
+    fam = rng.choice(["str", "sparse", "str", "sparse", "ident", "zero"])
+    c = call_init(rng, n)
     s = common(rng, n, tier)
-    s.update(mode="seqs", n=n, family="zero", labels=list(range(n)), deg=deg, dim=[[z, sizes[z]] for z in keys],
-             kind=kind, rescale=rng.random() < 0.15)
+    s.update(c, n=n, family=fam, labels=LABEL_FAMILIES[fam](n))
+    return s
+
+
+def spec_seqs(rng, tier):
+    n = rng.choice([3, 4, 4, 5, 5, 6])
+    c = call_seqs(rng, n)
+    s = common(rng, n, tier)
+    s.update(c, n=n, family="zero", labels=list(range(n)))
+    if s["hard"]:
+        # allow_rescaling is not part of the statement's quantifier; with a model whose expected statistics all vanish up
+        # to rounding, _rescale_model_parameters divides rounding noise by rounding noise and turns u into NaN
+        s["rescale"] = False
     return s
 
 
 def spec_model(rng, tier, partial=False):
     n = rng.choice([4, 5, 5, 6])
     s = common(rng, n, tier)
-    s["u"], s["w"] = gen_uw(rng, n, scale=rng.choice([0.7, 1.0, 1.3]))
+    if not s["hard"]:
+        s["u"], s["w"] = gen_uw(rng, n, scale=rng.choice([0.7, 1.0, 1.3]))
     s.update(mode="model", n=n, family="zero", labels=list(range(n)), maxsize=rng.choice([None, None, 3, 4]),
              dyadic=rng.random() < 0.8)
     if partial:
@@ -147,6 +194,37 @@ def spec_model(rng, tier, partial=False):
     return s
 
 
+PLANS = [("realisable", "not"), ("realisable", "not"), ("not", "realisable"), ("realisable", "realisable"),
+         ("init", "not"), ("init", "realisable"), ("realisable", "init"), ("not", "init"), ("init", "init"),
+         ("realisable", "realisable", "not"), ("realisable", "not", "realisable"), ("init", "realisable", "not", "init")]
+
+
+def spec_multi(rng, tier):
+    """several sample() calls, one after the other, on ONE sampler object (the docstring of sample(): 'To sample
+    conditioning on different sequences, a new call to this method is required').  matching_sequences is an
+    attribute of the object: a call starts with whatever the earlier calls left.
+    'realisable': the sequences of a list of distinct hyperedges (the greedy construction mostly realises them);
+    'not': equal totals concentrated on few nodes (it must run out of nodes and pad with degree-zero nodes)"""
+    n = rng.choice([4, 5, 5, 6, 6])
+    fam = rng.choice(["str", "sparse", "ident", "zero"])
+    s = common(rng, n, tier)
+    calls = []
+    for what in rng.choice(PLANS):
+        if what == "init":
+            c = call_init(rng, n)
+        else:
+            c = call_seqs(rng, n, kind="greedy" if what == "realisable" else "concentrated", maxsize=3 if what == "not" else 6)
+            c["rescale"] = False
+        calls.append(c)
+    s.update(mode="multi", n=n, family=fam, labels=LABEL_FAMILIES[fam](n), calls=calls)
+    return s
+
+
+def calls_of(s):
+    """a single-call spec carries the fields of its one call itself"""
+    return s["calls"] if s["mode"] == "multi" else [s]
+
+
 # ---------------------------------------------------------------------------
 # running the real sampler
 def hooks():
@@ -157,36 +235,44 @@ def hooks():
         return None
 
 
-def build(s):
-    """a fresh sampler and generator from the spec dict; returns (sampler, generator, header fields)"""
-    from hypergraphx import Hypergraph
+def make_sampler(s):
     from hypergraphx.generation.hy_mmsbm_sampling import HyMMSBMSampler
     u = np.array(s["u"], dtype=float)
     w = np.array(s["w"], dtype=float)
-    smp = HyMMSBMSampler(u=u, w=w, max_hye_size=s["maxsize"], exact_dyadic_sampling=s["dyadic"],
-                         burn_in_steps=s["burn"], intermediate_steps=s["thin"], seed=s["seed"])
-    labels = s["labels"]
-    inv = {l: i + 1 for i, l in enumerate(labels)}
-    hdr = {"idmap": list(range(1, s["n"] + 1)), "chain0": []}
-    if s["mode"] == "init":
+    return HyMMSBMSampler(u=u, w=w, max_hye_size=s["maxsize"], exact_dyadic_sampling=s["dyadic"],
+                          burn_in_steps=s["burn"], intermediate_steps=s["thin"], seed=s["seed"])
+
+
+def default_hdr(s):
+    return {"idmap": list(range(1, s["n"] + 1)), "chain0": []}
+
+
+def start_call(smp, s, c):
+    """one call of smp.sample(...) from the call dict c; returns (generator, header fields, label -> spec id)"""
+    from hypergraphx import Hypergraph
+    hdr = default_hdr(s)
+    if c["mode"] == "init":
+        labels = s["labels"]
+        inv = {l: i + 1 for i, l in enumerate(labels)}
         h = Hypergraph()
         h.add_nodes([labels[i - 1] for i in range(1, s["n"] + 1)])
-        for e in s["listing"]:
+        for e in c["listing"]:
             h.add_edge(tuple(labels[i - 1] for i in e))
         mp = h.get_mapping()
         hdr["idmap"] = [inv[x] for x in mp.classes_.tolist()]
         hdr["chain0"] = [sorted(int(x) for x in mp.transform(e)) for e in h.get_edges()]
         gen = smp.sample(initial_hyg=h)
     else:
+        inv = {i: i + 1 for i in range(s["n"])}      # without an initial hypergraph the nodes are the indices 0..n-1
         kw = {}
-        if "deg" in s:
-            kw["deg_seq"] = np.array(s["deg"], dtype=int)
-        if "dim" in s:
-            kw["dim_seq"] = {int(z): int(c) for z, c in s["dim"]}
-        if s.get("rescale"):
+        if "deg" in c:
+            kw["deg_seq"] = np.array(c["deg"], dtype=int)
+        if "dim" in c:
+            kw["dim_seq"] = {int(z): int(k) for z, k in c["dim"]}
+        if c.get("rescale"):
             kw["allow_rescaling"] = True
         gen = smp.sample(**kw)
-    return smp, gen, hdr, inv
+    return gen, hdr, inv
 
 
 def observe(o, inv):
@@ -227,71 +313,96 @@ def conv(ev):
                 "new1": ev["new1"], "new2": ev["new2"], "acc": bool(ev["accepted"])}
     if k == "c16_yield":
         # non-positive raw weights (underflow; int(nan/inf) garbage) are all dropped by the code: sent as 0
-        return {"k": "yield", "list": ev["hye_list"], "w": [int(x) if 0 < x < BIG else (0 if x <= 0 else BIG) for x in ev["weights"]]}
+        # ("garbage": which of them were negative - kept for the diagnosis of a rejection only, TLC does not read it)
+        return {"k": "yield", "list": ev["hye_list"], "w": [int(x) if 0 < x < BIG else (0 if x <= 0 else BIG) for x in ev["weights"]],
+                "garbage": [i for i, x in enumerate(ev["weights"]) if x < 0]}
     return None
 
 
 def one_side(s, hk, keep_events):
-    """-> (list of per-sample dict(events, obs, flag), raised or None, oversize)"""
-    seq, raised, big = [], None, False
+    """one sampler object, the calls of the spec one after the other
+    -> (list per call of dict(seq = per-sample dict(events, obs), raised, hdr, flag0), oversize)"""
+    calls, big = calls_of(s), False
     random.seed(s["seed"])
     np.random.seed(s["seed"] % (2 ** 32))
     if hk:
         hk.EVENTS.clear()
     try:
         with quiet():
-            smp, gen, hdr, inv = build(s)
+            smp = make_sampler(s)
     except Exception as ex:
-        return [], "build:" + type(ex).__name__, False, {"idmap": list(range(1, s["n"] + 1)), "chain0": []}
-    for _ in range(s["samples"]):
+        return [{"seq": [], "raised": "build:" + type(ex).__name__, "hdr": default_hdr(s), "flag0": "none"} for _ in calls], False
+    out = []
+    for c in calls:
+        one = {"seq": [], "raised": None, "hdr": default_hdr(s), "flag0": flag_of(smp)}
+        out.append(one)
+        if hk:
+            hk.EVENTS.clear()
         try:
             with quiet():
-                o = next(gen)
+                gen, one["hdr"], inv = start_call(smp, s, c)
         except Exception as ex:
-            raised = type(ex).__name__
-            break
-        evs = []
-        if hk:
-            if keep_events:
-                evs = [c for c in (conv(e) for e in hk.EVENTS if str(e.get("kind", "")).startswith("c16_")) if c]
-            hk.EVENTS.clear()
-        obs, b = observe(o, inv)
-        big = big or b or any(x >= BIG for e in evs if e["k"] == "yield" for x in e["w"])
-        obs["flag"] = flag_of(smp)
-        seq.append({"events": evs, "obs": obs})
+            one["raised"] = "build:" + type(ex).__name__
+            continue
+        for _ in range(s["samples"]):
+            try:
+                with quiet():
+                    o = next(gen)
+            except Exception as ex:
+                one["raised"] = type(ex).__name__
+                break
+            evs = []
+            if hk:
+                if keep_events:
+                    evs = [x for x in (conv(e) for e in hk.EVENTS if str(e.get("kind", "")).startswith("c16_")) if x]
+                hk.EVENTS.clear()
+            obs, b = observe(o, inv)
+            big = big or b or any(x >= BIG for e in evs if e["k"] == "yield" for x in e["w"])
+            obs["flag"] = flag_of(smp)          # what the sampler reports when this hypergraph is handed out
+            one["seq"].append({"events": evs, "obs": obs})
     if hk:
         hk.EVENTS.clear()
-    return seq, raised, big, hdr
+    return out, big
 
 
 def make_trace(s, hk):
-    """runs the sampler twice (same parameters, same seed); returns (trace or None, stats)"""
-    a, ra, biga, hdr = one_side(s, hk, True)
-    b, rb, bigb, _ = one_side(s, hk, False)
-    st = {"samples": len(a), "raised": ra, "twin_raised": rb, "oversize": biga or bigb,
-          "hook_events": sum(len(x["events"]) for x in a)}
-    if biga or bigb:
-        return None, st
-    ev = []
-    for i, x in enumerate(a):
-        ev += x["events"]
-        e = dict(x["obs"])
-        e["k"] = "sample"
-        e["twin_ok"] = i < len(b)
-        e["twin"] = b[i]["obs"]["out"] if i < len(b) else []
-        ev.append(e)
-    ev.append({"k": "end", "a": len(a), "b": len(b)})
-    sizes = []
-    deg = []
-    if s["mode"] == "init":
-        deg = [sum(1 for e in s["edges"] if i in e) for i in range(1, s["n"] + 1)]
-        sizes = [len(e) for e in s["edges"]]
-    elif s["mode"] == "seqs":
-        deg = list(s["deg"])
-        sizes = [z for z, c in s["dim"] for _ in range(c)]
-    tr = {"mode": s["mode"], "n": s["n"], "deg": deg, "sizes": sizes,
-          "maxsize": s["maxsize"] if s["maxsize"] else s["n"], "idmap": hdr["idmap"], "chain0": hdr["chain0"], "ev": ev}
-    return tr, st
+    """runs the sampler twice (same parameters, same seed, same calls); returns a list, one (trace or None, stats)
+    per call of sample()"""
+    sa, biga = one_side(s, hk, True)
+    sb, bigb = one_side(s, hk, False)
+    res = []
+    for ci, c in enumerate(calls_of(s)):
+        a, b, hdr = sa[ci]["seq"], sb[ci]["seq"], sa[ci]["hdr"]
+        st = {"samples": len(a), "raised": sa[ci]["raised"], "twin_raised": sb[ci]["raised"], "oversize": biga or bigb,
+              "hook_events": sum(len(x["events"]) for x in a), "zero_rate_yields": 0, "zero_rate_hyperedges": 0}
+        if biga or bigb:
+            res.append((None, st))
+            continue
+        ev = []
+        for i, x in enumerate(a):
+            ev += x["events"]
+            e = dict(x["obs"])
+            e["k"] = "sample"
+            e["twin_ok"] = i < len(b)
+            e["twin"] = b[i]["obs"]["out"] if i < len(b) else []
+            ev.append(e)
+        ev.append({"k": "end", "a": len(a), "b": len(b)})
+        for e in ev:
+            if e["k"] == "yield":
+                z = sum(1 for h in e["list"] if zero_rate(s["u"], s["w"], h))
+                st["zero_rate_hyperedges"] += z
+                st["zero_rate_yields"] += 1 if z else 0
+        sizes, deg = [], []
+        if c["mode"] == "init":
+            deg = [sum(1 for e in c["edges"] if i in e) for i in range(1, s["n"] + 1)]
+            sizes = [len(e) for e in c["edges"]]
+        elif c["mode"] == "seqs":
+            deg = list(c["deg"])
+            sizes = [z for z, k in c["dim"] for _ in range(k)]
+        tr = {"mode": c["mode"], "n": s["n"], "deg": deg, "sizes": sizes, "call": ci, "flag0": sa[ci]["flag0"],
+              "maxsize": s["maxsize"] if s["maxsize"] else s["n"], "idmap": hdr["idmap"], "chain0": hdr["chain0"], "ev": ev}
+        res.append((tr, st))
+    return res
 
 
 # ---------------------------------------------------------------------------
@@ -337,8 +448,40 @@ def validate(traces, procs=10, timeout=1500):
     return out
 
 
+def diagnose(s, tr, y):
+    """why a sample whose logged list holds no two equal hyperedges is not exact: names for the signature (so that findings
+    with different causes stay different findings) and a sentence for the report.  Not a verdict - TLC gave that."""
+    if y is None:
+        return [], ""
+    lost = [i for i, x in enumerate(y["w"]) if x <= 0]
+    if not lost:
+        if len(y["list"]) < len(tr["sizes"]):
+            return ["chain_short"], "; the logged list has %d hyperedges, %d were asked for" % (len(y["list"]), len(tr["sizes"]))
+        return ["other"], ""
+    causes, rates = set(), None
+    try:
+        from hypergraphx.communities.hy_mmsbm.model import HyMMSBM
+        from hypergraphx.linalg.linalg import hye_list_to_binary_incidence
+        with quiet():
+            m = HyMMSBM(u=np.array(s["u"], dtype=float), w=np.array(s["w"], dtype=float), max_hye_size=s["n"])
+            # (the whole list: the model's shape assertions do not hold for a single hyperedge)
+            allr = m.poisson_params(hye_list_to_binary_incidence([tuple(h) for h in y["list"]], shape=(s["n"], len(y["list"]))))
+            rates = [float(allr[i]) for i in lost]
+    except Exception:
+        pass
+    for k, i in enumerate(lost):
+        if i not in y.get("garbage", []):
+            causes.add("truncated_poisson_returned_zero")
+        elif rates is not None and rates[k] < 0:
+            causes.add("negative_poisson_parameter")
+        else:
+            causes.add("non_finite_weight")
+    return sorted(causes), ("; dropped without a coincidence: %s (code indices; raw weights %s; Poisson parameters of the model %s)"
+                            % ([y["list"][i] for i in lost], ["<0" if i in y.get("garbage", []) else "0" for i in lost], rates))
+
+
 def judge(res, specs, traces, owner, v):
-    """first PROPERTY rejection of a run -> Result.reject; MODEL (m_*) rejections -> model_drift"""
+    """first PROPERTY rejection of a call -> Result.reject; MODEL (m_*) rejections -> model_drift"""
     first, drift, nprop, nmodel = {}, {}, 0, 0
     for t, l, failed in v["rejects"]:
         prop = [c for c in failed if not c.startswith("m_")]
@@ -350,19 +493,35 @@ def judge(res, specs, traces, owner, v):
             nprop += 1
             first.setdefault(t, (l, prop))
     for t, (l, prop) in first.items():
-        s = specs[owner[t]]
-        ev = traces[t]["ev"][l]
-        k = sum(1 for e in traces[t]["ev"][:l + 1] if e["k"] == "sample")
-        what = ("sampler (%s, %d nodes, seed %d, burn-in %d, thinning %d): clause(s) %s fail on %s"
-                % (s["mode"], s["n"], s["seed"], s["burn"], s["thin"], ",".join(prop),
-                   "sample #%d" % k if ev["k"] == "sample" else "the number of samples the two twins produced"))
-        res.reject({"clauses": prop, "mode": s["mode"]}, what,
-                   {"spec": s, "failing_event_index": l, "failing_event": {k_: v_ for k_, v_ in ev.items()},
-                    "conditioning": {"deg": traces[t]["deg"], "sizes": traces[t]["sizes"]}})
+        si, ci = owner[t]
+        s, tr = specs[si], traces[t]
+        ev = tr["ev"][l]
+        k = sum(1 for e in tr["ev"][:l + 1] if e["k"] == "sample")
+        hist = ""
+        sig = {"clauses": prop, "mode": tr["mode"]}
+        if s["mode"] == "multi":
+            hist = (", call #%d of %d on one sampler object (%s; it reported matching_sequences=%s before this call)"
+                    % (ci + 1, len(s["calls"]), " -> ".join(c["mode"] for c in s["calls"]), tr["flag0"]))
+            if ci > 0:
+                sig["history"] = True
+        what = ("sampler (%s, %d nodes, %s memberships, seed %d, burn-in %d, thinning %d%s): clause(s) %s fail on %s"
+                % (tr["mode"], s["n"], "hard" if s.get("hard") else "dense", s["seed"], s["burn"], s["thin"], hist, ",".join(prop),
+                   "sample #%d (flag reported with it: %s)" % (k, ev["flag"]) if ev["k"] == "sample"
+                   else "the number of samples the two twins produced"))
+        last_yield = next((e for e in reversed(tr["ev"][:l]) if e["k"] in ("yield", "sample")), None)
+        last_yield = last_yield if last_yield and last_yield["k"] == "yield" else None
+        if "exact_when_no_coincidence_at_yield" in prop:
+            sig["cause"], more = diagnose(s, tr, last_yield)
+            what += more
+        res.reject(sig, what,
+                   {"spec": s, "call": ci, "failing_event_index": l, "failing_event": {k_: v_ for k_, v_ in ev.items()},
+                    "logged_yield_before_it": last_yield,
+                    "conditioning": {"deg": tr["deg"], "sizes": tr["sizes"]}})
     for model, (t, l) in drift.items():
-        s = specs[owner[t]]
-        res.model_drift("step clause(s) %s of Sampler.tla fail on a hooked %s event (mode %s, seed %d): the code takes a step "
-                        "the model does not allow" % (",".join(model), traces[t]["ev"][l]["k"], s["mode"], s["seed"]))
+        si, ci = owner[t]
+        s = specs[si]
+        res.model_drift("step clause(s) %s of Sampler.tla fail on a hooked %s event (mode %s, call #%d, seed %d): the code takes a "
+                        "step the model does not allow" % (",".join(model), traces[t]["ev"][l]["k"], traces[t]["mode"], ci + 1, s["seed"]))
     res.cov(rejected_events=len(v["rejects"]), rejected_property_events=nprop, rejected_model_events=nmodel,
             rejected_runs=len(first))
 
@@ -373,57 +532,105 @@ def _chunk(specs):
     return [make_trace(s, hk) for s in specs]
 
 
+def _no_two_equal(lst):
+    return len({tuple(e) for e in lst}) == len(lst)
+
+
 def sample_runs(specs, res, pool=None):
     """pool: futures (submitted by start_pool) that run the samplers in forked worker processes"""
     hk = hooks()
     traces, owner = [], []
-    cnt = {"runs": 0, "runs_raised_without_sample": 0, "runs_raised_later": 0, "samples_judged": 0, "hook_events": 0,
-           "oversize_runs_not_sent": 0, "flag_yes": 0, "flag_no": 0, "exact_clause_applicable": 0,
-           "samples_with_coincidence_or_lost": 0}
+    cnt = {"runs": 0, "calls": 0, "multi_call_runs": 0, "later_calls": 0, "runs_raised_without_sample": 0, "runs_raised_later": 0,
+           "samples_judged": 0, "hook_events": 0, "oversize_runs_not_sent": 0, "flag_yes": 0, "flag_no": 0,
+           "exact_clause_applicable": 0, "samples_with_coincidence_or_lost": 0,
+           "exact_at_yield_applicable": 0, "exact_at_yield_applicable_after_coincidence": 0,
+           "hard_membership_runs": 0, "yields_with_zero_rate_hyperedge": 0, "zero_rate_hyperedges_weighted": 0,
+           "later_calls_not_matching_after_matching": 0, "later_calls_matching": 0, "later_calls_from_initial_hypergraph": 0}
     raised_kinds, by_mode = {}, {}
     if pool is None:
         results = [make_trace(s, hk) for s in specs]
     else:
         results = [x for f in pool for x in f.result()]
     for si, s in enumerate(specs):
-        tr, st = results[si]
         cnt["runs"] += 1
-        by_mode[s["mode"]] = by_mode.get(s["mode"], 0) + 1
-        if st["raised"]:
-            key = "%s:%s" % (s["mode"], st["raised"])
-            raised_kinds[key] = raised_kinds.get(key, 0) + 1
-            cnt["runs_raised_without_sample" if st["samples"] == 0 else "runs_raised_later"] += 1
-        if tr is None:
+        cnt["multi_call_runs"] += s["mode"] == "multi"
+        cnt["hard_membership_runs"] += bool(s.get("hard"))
+        if any(tr is None for tr, _ in results[si]):
             cnt["oversize_runs_not_sent"] += 1
             continue
-        cnt["samples_judged"] += st["samples"]
-        cnt["hook_events"] += st["hook_events"]
-        for e in tr["ev"]:
-            if e["k"] == "sample":
-                if s["mode"] == "seqs":
-                    cnt["flag_yes" if e["flag"] == "yes" else "flag_no"] += 1
-                if s["mode"] == "init" or (s["mode"] == "seqs" and e["flag"] == "yes"):
-                    if len(e["out"]) == len(tr["sizes"]):
-                        cnt["exact_clause_applicable"] += 1
-                    else:
-                        cnt["samples_with_coincidence_or_lost"] += 1
-        traces.append(tr)
-        owner.append(si)
-    res.cov(**cnt)
-    res.coverage["runs_by_mode"] = by_mode
+        for ci, (tr, st) in enumerate(results[si]):
+            cnt["calls"] += 1
+            cnt["later_calls"] += ci > 0
+            by_mode[tr["mode"]] = by_mode.get(tr["mode"], 0) + 1
+            if st["raised"]:
+                key = "%s:%s" % (tr["mode"], st["raised"])
+                raised_kinds[key] = raised_kinds.get(key, 0) + 1
+                cnt["runs_raised_without_sample" if st["samples"] == 0 else "runs_raised_later"] += 1
+            cnt["samples_judged"] += st["samples"]
+            cnt["hook_events"] += st["hook_events"]
+            cnt["yields_with_zero_rate_hyperedge"] += st["zero_rate_yields"]
+            cnt["zero_rate_hyperedges_weighted"] += st["zero_rate_hyperedges"]
+            lasty, coincided, flags = None, False, []
+            for e in tr["ev"]:
+                if e["k"] == "yield":
+                    lasty = e
+                elif e["k"] == "sample":
+                    flags.append(e["flag"])
+                    if tr["mode"] == "seqs":
+                        cnt["flag_yes" if e["flag"] == "yes" else "flag_no"] += 1
+                    if tr["mode"] == "init" or (tr["mode"] == "seqs" and e["flag"] == "yes"):
+                        if len(e["out"]) == len(tr["sizes"]):
+                            cnt["exact_clause_applicable"] += 1
+                        else:
+                            cnt["samples_with_coincidence_or_lost"] += 1
+                        if lasty is not None:
+                            if _no_two_equal(lasty["list"]):
+                                cnt["exact_at_yield_applicable"] += 1
+                                cnt["exact_at_yield_applicable_after_coincidence"] += coincided
+                            else:
+                                coincided = True
+                    lasty = None
+            if ci > 0 and flags:
+                if tr["mode"] == "init":
+                    cnt["later_calls_from_initial_hypergraph"] += 1
+                elif flags[-1] == "yes":
+                    cnt["later_calls_matching"] += 1
+                elif tr["flag0"] == "yes":
+                    cnt["later_calls_not_matching_after_matching"] += 1
+            traces.append(tr)
+            owner.append((si, ci))
+    res.cov(**{k: int(v) for k, v in cnt.items()})
+    res.coverage["calls_by_mode"] = by_mode
     res.coverage["raised_by_mode_and_exception"] = raised_kinds
     res.coverage["hooks_present"] = hk is not None
     return traces, owner
 
 
+def pinned_specs(tier):
+    """inputs on which the exactness clause once failed for the code as it was (a hyperedge dropped although no two
+    sampled hyperedges coincided); both started from an initial hypergraph, with a chain that never moves:
+    1. cancellation in HyMMSBM.poisson_params gives -5.55e-17 for a hyperedge of rate 0 -> log -> NaN -> weight garbage
+    2. sample_truncated_poisson returns 0 for lambda = 1e-10 when the uniform draw is below ~5.5e-7 (seed 11970, 8th draw)"""
+    eye4 = [[1.0 if a == b else 0.0 for b in range(4)] for a in range(4)]
+    base = {"hard": True, "burn": 0, "thin": 0, "samples": 3 if tier == "quick" else 4, "maxsize": None, "dyadic": True,
+            "rescale": False, "mode": "init", "family": "zero", "pinned": True}
+    e1 = [[1, 2, 3], [1, 2], [1, 3], [2, 3]]
+    s1 = dict(base, u=[eye4[1], eye4[2], eye4[0]], w=[[0.5, 0, 0, 0], [0, 0.2, 0, 0], [0, 0, 0.2, 0], [0, 0, 0, 0.5]], seed=0, n=3,
+              labels=[0, 1, 2], edges=e1, listing=e1)
+    e2 = [[1, 2], [1, 3], [1, 4], [2, 3], [2, 4], [3, 4], [1, 2, 3], [1, 2, 4], [1, 3, 4], [2, 3, 4], [1, 2, 3, 4]]
+    s2 = dict(base, u=eye4, w=eye4, seed=11970, n=4, labels=[0, 1, 2, 3], edges=e2, listing=e2)
+    return [s1, s2]
+
+
 def make_specs(tier, seed):
     rng = random.Random(seed * 1000003 + 16)
-    k = {"quick": (420, 480, 200, 60), "thorough": (8000, 9000, 4000, 1000)}[tier]
+    k = {"quick": (420, 480, 200, 60, 260), "thorough": (8000, 9000, 4000, 1000, 5000)}[tier]
     specs = [spec_init(rng, tier) for _ in range(k[0])]
     specs += [spec_seqs(rng, tier) for _ in range(k[1])]
     specs += [spec_model(rng, tier) for _ in range(k[2])]
     specs += [spec_model(rng, tier, partial=True) for _ in range(k[3])]
-    return specs
+    specs += [spec_multi(rng, tier) for _ in range(k[4])]
+    return specs + pinned_specs(tier)
 
 
 def finish_cov(res, traces, v, specs):
@@ -440,16 +647,28 @@ def finish_cov(res, traces, v, specs):
             res.sample({"mode": "seqs (reported as not matching)", "conditioning": {"deg": t["deg"], "sizes": t["sizes"]},
                         "first_sample": smp["out"]})
             break
+    for t in traces:
+        if t["mode"] == "seqs" and t["call"] > 0 and t["flag0"] == "yes" and any(e["k"] == "sample" and e["flag"] == "no" for e in t["ev"]):
+            smp = next(e for e in t["ev"] if e["k"] == "sample")
+            res.sample({"mode": "seqs, call #%d on a sampler that reported matching sequences before; now not matching" % (t["call"] + 1),
+                        "conditioning": {"deg": t["deg"], "sizes": t["sizes"]}, "first_sample": smp["out"]})
+            break
     res.assume(
         "initial hypergraphs have hyperedges of size >= 2 only (the model's kappa is undefined for size 1) and every node listed; "
         "degree/size sequences are non-negative integers with equal totals and sizes >= 2",
-        "the exactness clause is applied when num_edges(sample) = number of hyperedges asked for (the only black-box reading of "
-        "'no two sampled hyperedges coincided'; MC_Sampler shows it is equivalent to 'no coincidence and no zero weight')",
+        "without hooks the exactness clause is applied when num_edges(sample) = number of hyperedges asked for (the only "
+        "black-box reading of 'no two sampled hyperedges coincided')",
+        "with hooks 'no two sampled hyperedges coincided' is decided on the list of hyperedges logged at the yield AND the chain "
+        "tracked from the initial configuration through the logged moves: when neither holds two equal hyperedges the sample "
+        "must be exact - a hyperedge dropped for a 'zero' weight, or lost in an earlier sample, is not excused by the statement",
         "numpy integer weights (numpy.int64) count as integers; the type test itself is done in Python, TLC decides weight >= 1",
         "runs that raise before the first sample (too few hyperedges for a move, no zero-degree node left to pad with, "
         "self.model AttributeError of the degree-only branch) yield no sample: counted, not judged (DESIGN.md section 5)",
-        "SeedFunctional compares two samplers built in the same process with identical arguments; a run and its twin must "
-        "also stop (raise) after the same number of samples",
+        "SeedFunctional compares two samplers built in the same process with identical arguments that serve the same calls; "
+        "a run and its twin must also stop (raise) after the same number of samples",
+        "several sample() calls on one sampler object are made one after the other; only the samples of the latest call are "
+        "drawn and each is judged against the conditioning of that call and the matching_sequences flag the object reports "
+        "when the hypergraph is handed out (generators of earlier calls are not resumed)",
         "mode 'partial' (only one of deg_seq / dim_seq given) is outside the conditioning clauses: well-formedness and seed only",
         "weights >= 2^28 are not sent to TLC (32-bit integers); such runs are counted under oversize_runs_not_sent")
 
@@ -474,7 +693,7 @@ def run(tier, seed):
     res.coverage["explorations"] = runs
     res.coverage["invariants"] = INVARIANTS + ["step assertions MovePreserves, WeightConserved, ZeroDroppedOnly",
                                                "ASSUME Splits = Reshuffle relation; Choices decrement only chosen nodes"]
-    print("[C16] sampling %.1fs validate %.1fs explore(total, concurrent) %.1fs (%d runs, %d events)"
+    print("[C16] sampling %.1fs validate %.1fs explore(total, concurrent) %.1fs (%d calls, %d events)"
           % (t1 - t0, t2 - t1, sum(r["wall_s"] for r in runs), len(traces), v["events"]), file=sys.stderr)
     judge(res, specs, traces, owner, v)
     finish_cov(res, traces, v, specs)
